@@ -159,6 +159,9 @@ fn env_run(prop: &'static str, tier: &str, shard: Option<&str>) -> Report {
             }
         }
         envcheck::explore(&mut rep, sub, &cfg);
+        if prop == "C09" && !sub.infinite_source {
+            envcheck::downstream_gone(&mut rep, sub);
+        }
     }
     if prop == "C19" && i == 0 {
         subjects_derive::eof_matrix(&mut rep);
@@ -173,6 +176,21 @@ fn env_run(prop: &'static str, tier: &str, shard: Option<&str>) -> Report {
 
 fn env_replay(v: &serde_json::Value) -> Result<(), String> {
     let want = v["replay"]["subject"].as_str().unwrap().to_string();
+    if v["replay"]["mode"] == "downstream-gone" {
+        for thorough in [false, true] {
+            for sub in subjects::all_subjects("C09", thorough) {
+                if sub.id() == want {
+                    let mut rep = Report::new("C09", "envx");
+                    envcheck::downstream_gone(&mut rep, &sub);
+                    return match rep.violations.first() {
+                        Some(x) => Err(format!("[{}] {}", x.signature, x.message)),
+                        None => Ok(()),
+                    };
+                }
+            }
+        }
+        return Err(format!("machinery: subject {want} not found"));
+    }
     let prop = v["property"].as_str().unwrap_or("C08").to_string();
     let prop: &'static str = Box::leak(prop.into_boxed_str());
     let start = envx::Start::from_json(&v["replay"]["start"]);
